@@ -35,6 +35,11 @@ enum Ctor {
     Str,
     String,
     Bytes,
+    /// an owned String with spare capacity (1 / 7 / 64 bytes more than its length), allocated inside the tracking window:
+    /// whatever the conversion does with the String's buffer, it must end up freed with the size it was allocated with
+    StringSpare1,
+    StringSpare7,
+    StringSpare64,
 }
 
 fn raw_ptr(r: &ReprCString) -> *const u8 {
@@ -53,6 +58,16 @@ fn case(input: &str, ctor: Ctor) -> R {
             r
         }
         Ctor::Bytes => ReprCString::from(input.as_bytes()),
+        Ctor::StringSpare1 | Ctor::StringSpare7 | Ctor::StringSpare64 => {
+            let spare = match ctor {
+                Ctor::StringSpare1 => 1,
+                Ctor::StringSpare7 => 7,
+                _ => 64,
+            };
+            let mut s = String::with_capacity(input.len() + spare);
+            s.push_str(input);
+            ReprCString::from(s)
+        }
     };
     let p = raw_ptr(&r);
     // ---- the buffer itself (before any method of ReprCString is trusted)
@@ -61,10 +76,12 @@ fn case(input: &str, ctor: Ctor) -> R {
     let bs = alloc::block_size(p);
     ensure!(bs.is_some(), "cstring:not_block_start", "{:?}: the pointer is not the start of a live allocation", ctor);
     let bs = bs.unwrap();
-    ensure!(bs == expected.len() + 1, "cstring:block_size", "{:?}: buffer is {} bytes, expected {} (prefix up to first NUL + one terminator)", ctor, bs, expected.len() + 1);
-    let buf = unsafe { std::slice::from_raw_parts(p, bs) };
+    // (a buffer larger than prefix + 1 is not forbidden by the property, as long as it is freed with its own size — the
+    //  allocator checks that at drop; it must hold the prefix and then the terminator)
+    ensure!(bs >= expected.len() + 1, "cstring:block_size", "{:?}: buffer is {} bytes, too small for the prefix ({} bytes) and its terminator", ctor, bs, expected.len());
+    let buf = unsafe { std::slice::from_raw_parts(p, expected.len() + 1) };
     ensure!(&buf[..expected.len()] == expected.as_bytes(), "cstring:contents", "{:?}: buffer holds {:02x?}", ctor, buf);
-    ensure!(buf[expected.len()] == 0 && buf.iter().filter(|b| **b == 0).count() == 1, "cstring:terminator", "{:?}: buffer {:02x?} does not contain exactly one NUL, at the end", ctor, buf);
+    ensure!(buf[expected.len()] == 0 && buf.iter().filter(|b| **b == 0).count() == 1, "cstring:terminator", "{:?}: buffer {:02x?} does not hold the prefix followed by its one NUL", ctor, buf);
     // ---- read-back and value semantics
     ensure!(AsRef::<str>::as_ref(&r) == expected, "cstring:as_ref", "{:?}: reads back {:?}, expected {:?}", ctor, AsRef::<str>::as_ref(&r), expected);
     ensure!(&*r == expected, "cstring:deref", "Deref differs");
@@ -107,6 +124,9 @@ fn ctor_of(s: &str) -> Ctor {
     match s {
         "Str" => Ctor::Str,
         "String" => Ctor::String,
+        "StringSpare1" => Ctor::StringSpare1,
+        "StringSpare7" => Ctor::StringSpare7,
+        "StringSpare64" => Ctor::StringSpare64,
         _ => Ctor::Bytes,
     }
 }
@@ -117,7 +137,7 @@ fn main() {
         name,
         explore: Box::new(move |cx: &Cx| {
             let l = cx.tier.pick(4, 6);
-            cx.rule(name, &format!("every string of <= {} symbols over {{NUL, a, b, é (2 bytes), € (3 bytes)}} — empty, NUL-free, NUL-terminated, interior NUL, no terminator — built with {:?}; oracle: one allocation of exactly prefix+1 bytes holding the prefix and exactly one NUL, read-back/Deref/Display/Debug/Clone/Eq/Hash/Borrow by content, ReprCStr from a CStr reads the same text, freed once with the allocated size, nothing leaked; non-trivial = non-empty input", l, ctor));
+            cx.rule(name, &format!("every string of <= {} symbols over {{NUL, a, b, é (2 bytes), € (3 bytes)}} — empty, NUL-free, NUL-terminated, interior NUL, no terminator — built with {:?}; oracle: one allocation holding the prefix and then its one NUL, read-back/Deref/Display/Debug/Clone/Eq/Hash/Borrow by content, ReprCStr from a CStr reads the same text, freed once with the allocated size, nothing leaked; non-trivial = non-empty input", l, ctor));
             let k = SYMBOLS.len();
             for len in 0..=l {
                 for mut idx in 0..k.pow(len as u32) {
@@ -137,7 +157,8 @@ fn main() {
         property: "C14",
         level: "exploration",
         assumptions: vec!["inputs longer than the bound are not covered".into(), "the tracking allocator's red zone (0xA5.., NUL-terminated) makes an over-read terminate deterministically".into()],
-        sections: vec![mk("from_str", Ctor::Str), mk("from_string", Ctor::String), mk("from_bytes", Ctor::Bytes)],
+        sections: vec![mk("from_str", Ctor::Str), mk("from_string", Ctor::String), mk("from_bytes", Ctor::Bytes),
+            mk("from_string_spare1", Ctor::StringSpare1), mk("from_string_spare7", Ctor::StringSpare7), mk("from_string_spare64", Ctor::StringSpare64)],
         no_isolation: false,
     });
 }
